@@ -393,6 +393,11 @@ def explore(scn, alphabet, monitors, R=1, T=0, S=0, max_states=4000, loops=None,
             if time_cap is not None and time.time() - t0 > time_cap:
                 res['capped'] = 'time {} s'.format(time_cap)
                 break
+            if eng.violations and not os.environ.get('NVMC_EXPLORE_ALL'):
+                # a counterexample for this scenario exists: report it instead of exploring on (a
+                # defective tree can make every further transition arbitrarily slow)
+                res['capped'] = 'stopped at first violation'
+                break
             for act in (loops(st) if loops else ()):
                 eng.apply(st, act)
             if st.terminal:
